@@ -1,0 +1,18 @@
+//go:build verif
+
+package parser
+
+// Read-only accessors used by the external verification harness (/verif).
+// Compiled only with the build tag `verif`.
+
+// VerifHashIsID reports the "id" type flag of a hash token.
+func VerifHashIsID(h Hash) bool { return h.flag&isIdentifier != 0 }
+
+// VerifStringHasError reports whether a string token is unterminated (EOF) .
+func VerifStringHasError(s String) bool { return s.flag&isErrorInString != 0 }
+
+// VerifURLHasError reports whether an url token is unterminated (EOF).
+func VerifURLHasError(u URL) bool { return u.flag&isErrorInURL != 0 }
+
+// VerifParseErrorKind exposes the kind byte of a ParseError token.
+func VerifParseErrorKind(p ParseError) byte { return p.kind }
